@@ -22,6 +22,6 @@ def run(tier, replay=None):
             raise vlib.ToolError("a generated derive program does not compile (grammar/renderer problem, or the derive rejects a supported definition: that is C13's finding): %s\n%s" % (src, "\n".join(x["rendered"] for x in diags[:2])))
         DC.validate_all(c, "C09", tr, tag)
     c.cov["exhaustive"] = False
-    c.cov["rule"] = "declarations = TLC-enumerated plans (4 shapes x every set of <=%d of the grammar features of specs/MC_Derive.tla: generics, skipped parameters, lifetimes, docs with 0/1/3 leading spaces, rename, codec skip/compact, PhantomData, self reference, nested built-ins, raw identifiers, capture_docs always/never/default in mixed case, module nesting, replace_segment incl. overlapping keys and the type's own identifier, skipped variants, codec(index), discriminants, const generics, doc attributes in both forms, attributes combined and split in both orders, encoded_as over path and non-path types, types through macro_rules fragments, a parameter instantiated with PhantomData, raw-identifier modules and type names, #[scale_info(crate = <a re-export path>)]) + seeded random declarations; each compiled with the docs feature off and on; the reported Type compared by TLC with Derive.Meta (path, parameters Some/None in the compile-time AND the portable form, member order, names, type identities via TypeId, whitespace-free type names with 'static lifetimes, variant names, docs)" % (4 if tier == "thorough" else 2)
+    c.cov["rule"] = "declarations = TLC-enumerated plans (4 shapes x every set of <=%d of the grammar features of specs/MC_Derive.tla: generics, skipped parameters, lifetimes, docs with 0/1/3 leading spaces, rename, codec skip/compact, PhantomData, self reference, nested built-ins, raw identifiers, capture_docs always/never/default in mixed case, module nesting, replace_segment incl. overlapping keys and the type's own identifier, skipped variants, codec(index), discriminants, const generics, doc attributes in both forms, attributes combined and split in both orders, encoded_as over path and non-path types, types through macro_rules fragments, a parameter instantiated with PhantomData, raw-identifier modules and type names, #[scale_info(crate = <a re-export path>)], the kinds of container attributes and the attributes of a member in the opposite order / before the doc lines, discriminants written as expressions) + seeded random declarations; each compiled with the docs feature off and on; the reported Type compared by TLC with Derive.Meta (path, parameters Some/None in the compile-time AND the portable form, member order, names, type identities via TypeId, whitespace-free type names with 'static lifetimes, variant names, docs)" % (4 if tier == "thorough" else 2)
     c.assumptions += ["type identities are compared through TypeIds of meta_type::<DeclaredType>() computed by the generated program", "variant indices are judged by C03"]
     return c.finish()
